@@ -2,6 +2,7 @@ SPECIFICATION Spec
 CONSTANTS
   MaxRules = 2
   Ops <- AllOps
+  DayPatterns <- PatternsStd
   WrongBase = TRUE
   SpanShapes = {1, 2, 3, 4, 5, 6}
 INVARIANTS Agree FoldValid FoldComments
